@@ -10,6 +10,8 @@
     The recursion is then on a genuine subterm and no fuel is needed.
 
     Priorities are an input: node creation consumes the next element of a list given to the machine.
+    remove_at hands out the ITEM of the split-out node; the machine shows that item as a whole ([ORemoved x]) and
+    can give the same item back to insert_at ([Move]), as a caller that moves an element does.
     Positions and sizes are [Z] ([usize] in the code; no operation here can overflow).
     Definitions only; proofs are in Proofs*.v. *)
 From Coq Require Import ZArith List Bool.
@@ -41,6 +43,20 @@ Definition take2 (i j : nat) (l : list X) : option (X * X * list X) :=
 Definition take1 (i : nat) (l : list X) : option (X * list X) :=
   match nth_error l i with Some a => Some (a, remove_nth i l) | None => None end.
 End Plumbing.
+
+(** ---------- what one operation of the machine shows ----------
+    [OInvalid]: the operation named a treap that is not live (skipped). [OPanic]: remove_at out of range.
+    [ORemoved x]: what remove_at returned.  The tree machine shows the COMPLETE returned item ([R] = the item type:
+    element, aggregate, size, pending tag, every other field); the list-of-lists specification shows the removed
+    element ([R] = the element type). *)
+Inductive output {R V A : Type} :=
+| OInvalid | OUnit | OPanic | OElem (o : option V) | OList (l : list V) | OSize (n : Z)
+| OAgg (o : option A) | ORemoved (x : R).
+Definition out_map {R R' V A A' : Type} (fr : R -> R') (fa : A -> A') (o : @output R V A) : @output R' V A' :=
+  match o with
+  | OInvalid => OInvalid | OUnit => OUnit | OPanic => OPanic | OElem e => OElem e | OList l => OList l
+  | OSize n => OSize n | OAgg a => OAgg (option_map fa a) | ORemoved x => ORemoved (fr x)
+  end.
 
 Section Treap.
 Context {T M V A : Type}.
@@ -185,17 +201,15 @@ Definition modify_root (m : M) (t : tree) : tree :=
 Inductive op :=
 | New | FromItem (x : T) | Merge (i j : nat) | SplitAt (i : nat) (k : Z) | SplitBy (i : nat) (q : V -> bool)
 | InsertAt (i : nat) (k : Z) (x : T) | RemoveAt (i : nat) (k : Z) | ModifyRoot (i : nat) (m : M)
-| First (i : nat) | Last (i : nat) | Collect (i : nat) | Size (i : nat) | RootAgg (i : nat).
-
-(** [OInvalid]: the operation named a treap that is not live (skipped). [OPanic]: remove_at out of range. *)
-Inductive output :=
-| OInvalid | OUnit | OPanic | OElem (o : option V) | OList (l : list V) | OSize (n : Z)
-| OAgg (o : option A) | ORemoved (v : V).
+| First (i : nat) | Last (i : nat) | Collect (i : nat) | Size (i : nat) | RootAgg (i : nat)
+(** [Move i k j k2]:  let x = treaps[i].remove_at(k); treaps[j].insert_at(k2, x)  — the item OBJECT that remove_at
+    returned is inserted as it is (i = j allowed); skipped when i or j is not live *)
+| Move (i : nat) (k : Z) (j : nat) (k2 : Z).
 
 Definition next_prio (ps : list Z) : Z * list Z :=
   match ps with p :: ps' => (p, ps') | [] => (0, []) end.
 
-Definition step (st : list tree) (ps : list Z) (o : op) : list tree * list Z * output :=
+Definition step (st : list tree) (ps : list Z) (o : op) : list tree * list Z * @output T V A :=
   match o with
   | New => (st ++ [E], ps, OUnit)
   | FromItem x => let '(p, ps') := next_prio ps in (st ++ [single x p], ps', OUnit)
@@ -222,7 +236,7 @@ Definition step (st : list tree) (ps : list Z) (o : op) : list tree * list Z * o
   | RemoveAt i k =>
     match nth_error st i with
     | Some t => let '(t', res) := remove_at t k in
-                (replace_nth i t' st, ps, match res with Some x => ORemoved (elem x) | None => OPanic end)
+                (replace_nth i t' st, ps, match res with Some x => ORemoved x | None => OPanic end)
     | None => (st, ps, OInvalid)
     end
   | ModifyRoot i m =>
@@ -255,10 +269,25 @@ Definition step (st : list tree) (ps : list Z) (o : op) : list tree * list Z * o
     | Some t => (st, ps, OAgg (option_map agg (item t)))
     | None => (st, ps, OInvalid)
     end
+  | Move i k j k2 =>
+    match nth_error st i, nth_error st j with
+    | Some t, Some _ =>
+      let '(t', res) := remove_at t k in
+      let st1 := replace_nth i t' st in
+      match res with
+      | None => (st1, ps, OPanic)           (* remove_at panicked: nothing is inserted *)
+      | Some x =>
+        match nth_error st1 j with
+        | Some u => let '(p, ps') := next_prio ps in (replace_nth j (insert_at u k2 x p) st1, ps', ORemoved x)
+        | None => (st1, ps, OInvalid)       (* not reachable: [replace_nth] keeps the length *)
+        end
+      end
+    | _, _ => (st, ps, OInvalid)
+    end
   end.
 
 (** run a history; outputs in order *)
-Fixpoint run (st : list tree) (ps : list Z) (ops : list op) : list tree * list Z * list output :=
+Fixpoint run (st : list tree) (ps : list Z) (ops : list op) : list tree * list Z * list (@output T V A) :=
   match ops with
   | [] => (st, ps, [])
   | o :: ops' =>
@@ -267,7 +296,13 @@ Fixpoint run (st : list tree) (ps : list Z) (ops : list op) : list tree * list Z
     (st2, ps2, out :: outs)
   end.
 
-Definition run_outputs (ps : list Z) (ops : list op) : list output := snd (run [] ps ops).
+Definition run_outputs (ps : list Z) (ops : list op) : list (@output T V A) := snd (run [] ps ops).
+(** what the list-of-lists specification can say about an output: of a removed item, its element *)
+Definition out_elem (o : @output T V A) : @output V V A :=
+  match o with
+  | OInvalid => OInvalid | OUnit => OUnit | OPanic => OPanic | OElem e => OElem e | OList l => OList l
+  | OSize n => OSize n | OAgg a => OAgg a | ORemoved x => ORemoved (elem x)
+  end.
 Definition run_final (ps : list Z) (ops : list op) : list tree := fst (fst (run [] ps ops)).
 
 (** ---------- the list-of-lists specification (does not mention trees) ---------- *)
@@ -285,7 +320,7 @@ Definition last_error (l : list V) : option V :=
 
 (** [None]: the history left the quantifier of the property (split_by with a predicate that is not
     prefix-monotone on the current sequence) *)
-Definition sstep (st : list (list V)) (o : op) : option (list (list V) * output) :=
+Definition sstep (st : list (list V)) (o : op) : option (list (list V) * @output V V A) :=
   match o with
   | New => Some (st ++ [[]], OUnit)
   | FromItem x => Some (st ++ [[elem x]], OUnit)
@@ -337,9 +372,23 @@ Definition sstep (st : list (list V)) (o : op) : option (list (list V) * output)
     | Some xs => Some (st, OAgg (match xs with [] => None | _ => Some (aggf xs) end))
     | None => Some (st, OInvalid)
     end
+  | Move i k j k2 =>
+    match nth_error st i, nth_error st j with
+    | Some xs, Some _ =>
+      match nth_error xs (Z.to_nat k) with
+      | Some v =>
+        let st1 := replace_nth i (firstn (Z.to_nat k) xs ++ skipn (S (Z.to_nat k)) xs) st in
+        match nth_error st1 j with
+        | Some ys => Some (replace_nth j (firstn (Z.to_nat k2) ys ++ v :: skipn (Z.to_nat k2) ys) st1, ORemoved v)
+        | None => Some (st1, OInvalid)
+        end
+      | None => Some (st, OPanic)
+      end
+    | _, _ => Some (st, OInvalid)
+    end
   end.
 
-Fixpoint srun (st : list (list V)) (ops : list op) : option (list (list V) * list output) :=
+Fixpoint srun (st : list (list V)) (ops : list op) : option (list (list V) * list (@output V V A)) :=
   match ops with
   | [] => Some (st, [])
   | o :: ops' =>
